@@ -584,8 +584,8 @@ def run_tab_loop(case):
 
     algo, eps = case["algo"], case["epsilon"]
     cfg = dict(script=[[4, "T"], [6, "U"], [3, "T"]] if eps else
-               [[9, "T"], [1, "T"], [1, "T"], [14, "U"], [1, "T"], [1, "U"],
-                [7, "T"], [1, "T"]],
+               [[1, "T"], [1, "T"], [1, "U"], [2, "T"], [1, "T"], [9, "T"],
+                [1, "T"], [14, "U"], [1, "T"], [7, "T"]],
                seed=case["seed"],
                total_timesteps=80 if eps else (2400 if algo == "double_q_learning" else 800),
                snapshots=False, logger=False,
